@@ -1,5 +1,8 @@
 import math
+import os
+import re
 
+from . import common as C
 from .runner import Spec
 
 
@@ -35,7 +38,13 @@ class C15(Spec):
             "at least 2 elements in the common prefix / in the Unique input")
     trusted_base = ["reflect.Swapper(slice)(i,j) swaps elements i and j of that slice and panics iff an index is out of range",
                     "Go int index arithmetic modelled on Nat (each subtraction sits under a guard that keeps it non-negative; "
-                    "the correspondence compares every index passed to less)"]
+                    "the correspondence compares every index passed to less)",
+                    "translator tie: tools/srcfacts/minigo_sort.go (go/ast + go/types -> MiniGoSort terms of insertionSort_func, "
+                    "siftDown_func, heapSort_func, medianOfThree_func, doPivot_func, quickSort_func, maxDepth, regenerated every run "
+                    "into Got/Generated/AstSortxSort.lean) and the MiniGoSort interpreter's reading of Go (64-bit wrap-around, "
+                    "truncated division, shifts, short-circuit conditions, for/break/return, calls; Got/Model/MiniGoSort.lean); "
+                    "the interpreter run on the generated terms is compared with the real code on every SliceBy case of the "
+                    "correspondence (driver mode `ast`); the SliceBy glue (min of the lengths, length<=1 guard) is hand-written"]
     assumptions = ["less is a deterministic function of slice contents, call history and the two indices",
                    "sortedness clause: the key order is a strict weak order"]
 
@@ -149,6 +158,47 @@ class C15(Spec):
                 # nesting depth counts the outermost call too (maxDepth levels below it)
                 return ("depth-exceeded", "quickSort_func nested %d deep > 2*ceil(lg(n+1))+1 = %d" % (d, 2 * ceil_lg(n + 1) + 1))
         return None
+
+    AST_FUNCS = ("insertionSort_func", "siftDown_func", "heapSort_func", "medianOfThree_func", "doPivot_func",
+                 "quickSort_func", "maxDepth")
+
+    def extra(self, ctx):
+        """second correspondence: the MiniGoSort interpreter on the terms regenerated from /repo's source (driver mode
+        `ast`) must print what the real code printed on every slice/multi line (validates translator + interpreter
+        semantics; the Lean theorems C15_translated_source_*_refines_model tie those terms to the model)."""
+        ex = ctx.get("ex")
+        cov = ctx["coverage"]
+        notes = {}
+        gen = os.path.join(C.LEAN, "Got", "Generated", "AstSortxSort.lean")
+        if os.path.exists(gen):
+            for m in re.finditer(r'^def (\w+)Note : String := "((?:[^"\\]|\\.)*)"', open(gen).read(), re.M):
+                notes[m.group(1)] = m.group(2)
+        bad_notes = {f: notes.get(f, "<no translation>") for f in self.AST_FUNCS if notes.get(f) != "ok"}
+        cov["translation_notes"] = "ok" if not bad_notes else bad_notes
+        if bad_notes:
+            ctx["broken"].append({"layer": "L2", "what": "translator: no longer inside the MiniGoSort fragment: %s" % bad_notes})
+        if not ex or "build_error" in ex or not ex.get("script") or not os.path.exists(C.driver_path(self.driver)):
+            return
+        d = os.path.join(C.OUT, "run", "C15-ast-%d" % os.getpid())
+        C.fresh_dir(d)
+        try:
+            sp, op = os.path.join(d, "script.txt"), os.path.join(d, "ast.txt")
+            open(sp, "w").write("".join(x + "\n" for x in ex["script"]))
+            rc, err = C.run_driver(self.driver, ["ast"], sp, op)
+            out = open(op, errors="replace").read().split("\n")[:-1]
+            impl = ex["impl"]
+            pairs = [(s, impl[i] if i < len(impl) else "<none>", a) for i, (s, a) in enumerate(zip(ex["script"], out)) if a != "n/a"]
+            bad = [(s, a, b) for s, a, b in pairs if not self.compare(a, b)]
+            cov["ast_interpreter_lines"] = len(pairs)
+            cov["ast_interpreter_mismatches"] = len(bad)
+            if rc != 0 or len(out) != len(ex["script"]):
+                ctx["broken"].append({"layer": "L2", "what": "driver (ast mode) failed rc=%s, %d of %d lines: %s" % (rc, len(out), len(ex["script"]), (err or "")[-300:])})
+            elif bad:
+                ctx["broken"].append({"layer": "L2", "what": "translated source (MiniGoSort interpreter) and implementation differ on %d of %d lines" % (len(bad), len(pairs)),
+                                      "first": [{"script": s[:300], "impl": a[:200], "ast": b[:200]} for s, a, b in bad[:5]]})
+        finally:
+            import shutil
+            shutil.rmtree(d, ignore_errors=True)
 
     def nontrivial(self, script, impl):
         w = script.split()
